@@ -218,3 +218,33 @@ class BadPerViewRandom(Table):
         yield ('x',)
         for _ in range(self.n):
             yield (rnd.random(),)
+
+
+class BadSourceKeepsBuffer(object):
+    def __init__(self, data):
+        self.data = data
+        self.buf = None
+
+    def open(self, mode='rb'):
+        from io import BytesIO
+        if 'r' in mode:
+            if self.buf is None:
+                self.buf = BytesIO(self.data)
+            self.buf.seek(0)
+        else:
+            self.buf = BytesIO()
+        return self.buf
+
+
+class GoodSourceFreshBuffer(object):
+    def __init__(self, data):
+        self.data = data
+        self.buf = None
+
+    def open(self, mode='rb'):
+        from io import BytesIO
+        if 'r' in mode:
+            self.buf = BytesIO(self.data)
+        elif self.buf is None:
+            self.buf = BytesIO()       # append mode keeps what was written
+        return self.buf
